@@ -1386,7 +1386,8 @@ func borderImageSlice(tokens []Token, _ string) pr.CssProperty {
 			return nil
 		}
 	}
-	if L := len(values); (fill && 2 <= L && L <= 5) || (1 <= L && L <= 4) {
+	// 1 to 4 numbers or percentages, besides the optional "fill"
+	if L := len(values); (fill && 2 <= L && L <= 5) || (!fill && 1 <= L && L <= 4) {
 		return values
 	}
 	return nil
